@@ -1185,3 +1185,35 @@ def case_materialize_reshape_search():
 
 
 CASES["materialize_reshape_search"] = case_materialize_reshape_search
+
+
+def case_split_to_sequence_keepdims():
+    """SplitToSequence(x, split, keepdims=0) with a 1-D split: ONNX ignores keepdims when split is given (operator documentation;
+    onnxruntime and onnx.reference agree) — the element keeps the split axis"""
+    import onnxruntime as ort
+    import onnxscript.optimizer
+    ort.set_default_logger_severity(4)
+    bad = 0
+    for split, x_shape in (([1, 1], [2, 3]), ([2, 2], [4, 3]), ([1, 3], [4, 3])):
+        sp = np.array(split, dtype=np.int64)
+        g = helper.make_graph([
+            helper.make_node("SplitToSequence", ["x", "sp"], ["seq"], axis=0, keepdims=0),
+            helper.make_node("Constant", [], ["i"], value=numpy_helper.from_array(np.array(0, dtype=np.int64), "i")),
+            helper.make_node("SequenceAt", ["seq", "i"], ["y"])], "g", [vi("x", TensorProto.FLOAT, x_shape)],
+            [helper.make_value_info("y", helper.make_tensor_type_proto(TensorProto.FLOAT, None))], [numpy_helper.from_array(sp, "sp")])
+        m = helper.make_model(g, opset_imports=[helper.make_opsetid("", 18)], ir_version=9)
+        x = np.arange(np.prod(x_shape), dtype=np.float32).reshape(x_shape)
+        a = ort.InferenceSession(m.SerializeToString(), providers=["CPUExecutionProvider"]).run(None, {"x": x})[0]
+        r = np.asarray(ReferenceEvaluator(m).run(None, {"x": x})[0])
+        o = onnxscript.optimizer.optimize(m)
+        try:
+            b = ort.InferenceSession(o.SerializeToString(), providers=["CPUExecutionProvider"]).run(None, {"x": x})[0].shape
+        except Exception as e:  # noqa: BLE001
+            b = "fails to load/run: " + str(e).splitlines()[0][:120]
+        if a.shape != b:
+            print(f"SequenceAt(SplitToSequence(x{x_shape}, {split}, axis=0, keepdims=0), 0): onnxruntime {a.shape}, onnx.reference {r.shape}; after optimize(): {b}")
+            bad += 1
+    return bad
+
+
+CASES["split_to_sequence_keepdims"] = case_split_to_sequence_keepdims
